@@ -15,6 +15,7 @@ import vcommon
 from vcommon import Run, ToolError, log
 
 OVERHEAD_MS = 250
+FORCED = []      # positions with exactly one legal move from the last pool() call
 
 GO_ZERO = ["go", "go infinite", "go wtime 0 btime 0", "go wtime -5 btime -5 winc 0 binc 0", "go wtime 100 btime 100", "go wtime 101 btime 101",
            "go movestogo 3", "go winc 0 binc 0 wtime 90 btime 90 movestogo 2",
@@ -73,7 +74,8 @@ def pool(h, seed, small=10, mate=6, rep=4, game=8, term=0):
     vcommon.run_harness(h, ["scen", "--out", path, "--seed", seed, "--small", small, "--mate", mate, "--rep", rep, "--game", game, "--term", term])
     items = json.load(open(path))
     os.remove(path)
-    live = [x["cmd"] for x in items if x["tag"] != "terminal"]
+    live = [x["cmd"] for x in items if x["tag"] not in ("terminal", "forced")]
+    FORCED[:] = [x["cmd"] for x in items if x["tag"] == "forced"]
     live.append("position startpos")
     live.append("position startpos moves e2e4 e7e5 g1f3")
     return live, [x["cmd"] for x in items if x["tag"] == "terminal"]
@@ -99,6 +101,11 @@ def plan(h, sessions):
             if st["do"] == "go":
                 e = table[st["line"]]
                 ex = st.setdefault("extra", {})
+                if any(len(tk.lstrip("-")) > 9 for tk in e["toks"] if tk.lstrip("-").isdigit()):
+                    # numbers beyond TLC's 32-bit integers: the session is judged without the slice contract and timing
+                    ex.update({"toks": ["go"], "slice_w": 0, "slice_b": 0, "notime": True, "nocontract": True})
+                    st["wait_ms"] = st.get("wait_ms", 8000)
+                    continue
                 if e.get("panic"):
                     # the engine's own go parser panics on this (well-formed) line: no plan; the session still runs
                     # on the real binary, where the consequence (process death / no answer) is what gets judged
@@ -488,6 +495,10 @@ def c09(tier, replay):
     sessions = []
     for i in range(12 if q else 100):
         sessions.append([{"do": "send", "line": rng.choice(live)}, {"do": "go", "line": rng.choice(timed)}, {"do": "go", "line": rng.choice(timed)}])
+    # positions whose search is over long before the deadline (mate in one, forced replies): the answer still waits for it
+    early, _ = pool(h, vcommon.seed() + 9, 0, 6 if q else 40, 0, 0, 8)
+    for p_ in (early[:6 if q else 40] + FORCED[:3]):
+        sessions.append([{"do": "send", "line": p_}, {"do": "go", "line": rng.choice(["go wtime 475 btime 475 movestogo 1", "go wtime 350 btime 350 movestogo 1"])}])
     plan(h, sessions)
     logs = run_sessions(binary, sessions, 4)
     sample_session(run, sessions[0], logs[0])
@@ -824,6 +835,15 @@ def timed_info_lines(run, pid, tier):
     sessions = []
     for _ in range(10 if q else 80):
         sessions.append([{"do": "send", "line": rng.choice(live)}, {"do": "go", "line": rng.choice(GO_MEDIUM + GO_SMALL)}, {"do": "go", "line": rng.choice(GO_SMALL)}])
+    live2, _ = pool(h, vcommon.seed() + 8, 2, 0, 0, 0, 10)
+    # a forced reply searched with a long slice, followed at once by the next search (lines of the first search must not
+    # run into the second)
+    for f in FORCED[:4]:
+        sessions.append([{"do": "send", "line": f}, {"do": "go", "line": "go wtime 1100 btime 1100 movestogo 1"},
+                         {"do": "send", "line": rng.choice(live)}, {"do": "go", "line": "go wtime 600 btime 600 movestogo 1"}])
+    # a clock far beyond anything a GUI sends (the slice does not fit 64 bits): never answered in our lifetime, but the
+    # lines printed meanwhile are still judged
+    sessions.append([{"do": "send", "line": rng.choice(live)}, {"do": "go", "line": "go wtime 691752902764108185600 btime 691752902764108185600", "wait_ms": 7000}])
     plan(h, sessions)
     logs = run_sessions(binary, sessions, 6)
     totals = validate(run, pid, "timed", logs, scripts=sessions, binary=binary)
